@@ -195,10 +195,43 @@ def corpus ():
   return fs
 
 
+def near_collisions ():
+  """Frames that carry the header values of a corpus frame permuted or shifted between fields (ports swapped,
+  addresses swapped, VLAN id and priority swapped, in_port and a port number changed by the same bits): any
+  summary of a frame that forgets WHICH field a value sits in (a sum, an XOR) cannot tell them from the original.
+  Used by the lookup-history part of C03, where frames are looked up back to back in the same table."""
+  ip = dict(dl_type=0x0800, nw_src=IPA, nw_dst=IPB)
+  ab = dict(dl_src=MA, dl_dst=MB)
+  t = dict(nw_tos=0x20, nw_proto=6)
+  return [
+    Frame("tcp~ports", eth(MB, MA, 0x0800, ipv4(6, tcp(80, 1111), tos=0x20)), 1, tp_src=80, tp_dst=1111, **t, **ab, **ip),
+    Frame("tcp~addrs", eth(MB, MA, 0x0800, ipv4(6, tcp(1111, 80, src=IPB, dst=IPA), src=IPB, dst=IPA, tos=0x20)), 1,
+          dl_type=0x0800, nw_src=IPB, nw_dst=IPA, tp_src=1111, tp_dst=80, **t, **ab),
+    Frame("tcp~macs", eth(MA, MB, 0x0800, ipv4(6, tcp(1111, 80), tos=0x20)), 1,
+          dl_src=MB, dl_dst=MA, tp_src=1111, tp_dst=80, **t, **ip),
+    Frame("tcp~port3", eth(MB, MA, 0x0800, ipv4(6, tcp(1111, 82), tos=0x20)), 3, tp_src=1111, tp_dst=82, **t, **ab, **ip),   # 1^80 == 3^82
+    Frame("tcp~port2", eth(MB, MA, 0x0800, ipv4(6, tcp(1108, 80), tos=0x20)), 2, tp_src=1108, tp_dst=80, **t, **ab, **ip),   # 1^1111 == 2^1108
+    Frame("udp~ports", eth(MA, MB, 0x0800, ipv4(17, udp(5353, 53, src=IPB, dst=IPA), src=IPB, dst=IPA)), 2,
+          dl_src=MB, dl_dst=MA, dl_type=0x0800, nw_src=IPB, nw_dst=IPA, nw_proto=17, tp_src=5353, tp_dst=53),
+    Frame("icmp~typecode", eth(MB, MA, 0x0800, ipv4(1, icmp(1, 3), tos=0xc0)), 1,
+          nw_tos=0xc0, nw_proto=1, tp_src=1, tp_dst=3, **ab, **ip),
+    Frame("arp-req~addrs", eth(BCAST, MA, 0x0806, arp(1, MA, IPB, b"\0" * 6, IPA)), 1,
+          dl_src=MA, dl_dst=BCAST, dl_type=0x0806, nw_proto=1, nw_src=IPB, nw_dst=IPA),
+    Frame("vlan5-pcp2", eth(MB, MA, 0x8100, dot1q(5, 2, 0, 0x0800, ipv4(6, tcp(1111, 80), tos=0x20))), 1,
+          dl_vlan=5, dl_vlan_pcp=2, tp_src=1111, tp_dst=80, **t, **ab, **ip),
+    Frame("vlan2-pcp5", eth(MB, MA, 0x8100, dot1q(2, 5, 0, 0x0800, ipv4(6, tcp(1111, 80), tos=0x20))), 1,
+          dl_vlan=2, dl_vlan_pcp=5, tp_src=1111, tp_dst=80, **t, **ab, **ip),
+    Frame("vlan-tcp~port3", eth(MB, MA, 0x8100, dot1q(0x123, 5, 0, 0x0800, ipv4(6, tcp(1111, 82), tos=0x20))), 3,
+          dl_vlan=0x123, dl_vlan_pcp=5, tp_src=1111, tp_dst=82, **t, **ab, **ip),
+    Frame("tcp~tos-proto", eth(MB, MA, 0x0800, ipv4(2, b"\x04\x57\x00\x50" + b"q" * 16, tos=0x24)), 1,
+          nw_tos=0x24, nw_proto=2, **ab, **ip),      # 0x24 ^ 2 == 0x20 ^ 6 (frame tcp); protocol 2 has no ports
+  ]
+
+
 def self_check ():
   """Returns a list of disagreements between the hand-written expectations and extract()."""
   bad = []
-  for fr in corpus():
+  for fr in corpus() + near_collisions():
     got, app = extract(fr.data, fr.in_port)
     if got != fr.want:
       bad.append("%s: extract %r, corpus says %r" % (fr.name, sorted((k, v) for k, v in got.items() if fr.want.get(k) != v),
